@@ -298,6 +298,26 @@ def check_case(case, res):
                                   f"{pname}.{n} ({f}) wrote "
                                   f"{vals[pname, n]} read {got}", case=case)
                     return
+            # a write the library rejects (value outside the format) must
+            # leave the variable as it was
+            for pname, obj, n, f in allvars:
+                if n.startswith("t_") or f == "x" or not scalar(f):
+                    continue
+                bad = 1 << (8 * struct.calcsize(f[-1]))
+                try:
+                    setattr(obj, n, bad)
+                    continue            # accepted: another matter
+                except (struct.error, OverflowError, ValueError):
+                    pass
+                res.count("rejected_python_writes")
+                got = getattr(obj, n)
+                if not same(f, got, vals[pname, n]):
+                    res.violation(
+                        "unexplained:rejected-write-changed-the-variable",
+                        f"{pname}.{n} ({f}) held {vals[pname, n]}; the "
+                        f"assignment of {bad} was refused, now it reads "
+                        f"{got}", case=case)
+                    return
             ret, out, _ = ld.run_k(bytes(64))
             for pname, obj, n, f in allvars:
                 if n.startswith("t_"):
